@@ -248,6 +248,13 @@ bool File::copy(const String& src, const String& destination, bool failIfExists)
       errno = EISDIR;
       return false;
     }
+    struct stat destBuf;
+    if(stat(destination, &destBuf) == 0 && destBuf.st_dev == buf.st_dev && destBuf.st_ino == buf.st_ino)
+    { // source and destination are the same file: truncating the destination would destroy the data
+      ::close(fd);
+      errno = EINVAL;
+      return false;
+    }
     off64_t size = lseek(fd, 0, SEEK_END);
     if(size < 0)
       return false;
